@@ -48,9 +48,6 @@ def stepClass (w : Nat) (op : String) (a b : EI) (k : Nat) : String :=
   if !(canon a && canon b) then "eint.state.leading-zero-limb"
   else match op with
   | "sub" => if a.sign && !a.limbs.isEmpty && !b.sign then "eint.sub.negative-lhs" else ""
-  | "mul" =>   -- both operands multi-limb AND some row leaves a carry (the as-is loop and the repaired loop disagree)
-    if a.limbs.length ≥ 2 && b.limbs.length ≥ 2 && toNat w (mulAsIs w a b).limbs != toNat w (mulFixed w a b).limbs
-    then "eint.mul.multi-limb" else ""
   | "div" =>
     match (reduce w a b).path with
     | .knuth => "eint.divrem.multi-limb-divisor"
@@ -368,13 +365,8 @@ def applyOp (op : String) (a b : ER) : Option ER :=
 def lowest (x : ER) : Bool :=
   Nat.gcd (EDec.toNat x.num.d) (EDec.toNat x.den.d) == 1
 
-/-- D17: a product or quotient that is zero keeps the xor of the sign flags. -/
-def stepClass (op : String) (a b : ER) : String :=
-  if (a.neg && EDec.isZero a.num) || (b.neg && EDec.isZero b.num) then "erat.state.negative-zero"
-  else match op with
-  | "mul" => if (EDec.isZero a.num || EDec.isZero b.num) && (a.neg != b.neg) then "erat.muldiv.negative-zero" else ""
-  | "div" => if EDec.isZero a.num && (a.neg != b.neg) then "erat.muldiv.negative-zero" else ""
-  | _ => ""
+/-- erational has no known-defect input class left (D17 repaired in 535b52e): every spec failure is unclassified. -/
+def stepClass (_op : String) (_a _b : ER) : String := ""
 
 def judge (x : Rat) (rhs : List String) : Bool × String :=
   match rhs with
